@@ -8,6 +8,7 @@ package verifhook
 import (
 	"sync"
 	"sync/atomic"
+	"unsafe"
 )
 
 var cur atomic.Pointer[Sim]
@@ -181,4 +182,32 @@ func OnceDo(site string, once *sync.Once, f func()) {
 	s.park(t, site, parkLock, nil, once, "w")
 	defer s.unlock(t, once, "w")
 	once.Do(f)
+}
+
+// MR records a read of map m by the calling task and returns m (the
+// instrumenter wraps map operands of index expressions, len and range).
+func MR[K comparable, V any](site string, m map[K]V) map[K]V {
+	if s, t := active(); s != nil && m != nil {
+		s.access(t, site, mapID(m), false, "map", m)
+	}
+	return m
+}
+
+// MW records a write (assignment to an element, delete) of map m.
+func MW[K comparable, V any](site string, m map[K]V) map[K]V {
+	if s, t := active(); s != nil && m != nil {
+		s.access(t, site, mapID(m), true, "map", m)
+	}
+	return m
+}
+
+// FW records a write of the field (reached through a pointer) at address p.
+func FW[T any](site string, p *T) {
+	if s, t := active(); s != nil && p != nil {
+		s.access(t, site, uintptr(unsafe.Pointer(p)), true, "field", p)
+	}
+}
+
+func mapID[K comparable, V any](m map[K]V) uintptr {
+	return uintptr(*(*unsafe.Pointer)(unsafe.Pointer(&m)))
 }
